@@ -1,0 +1,89 @@
+//go:build verif
+
+// Contracts for package table (comment-only; compiled only with the build tag "verif",
+// read by /verif/engine). Properties C07, C10, C14, C15, C16.
+
+package table
+
+//@ import serrors "github.com/jamf/regatta/storage/errors"
+//@ import regattapb "github.com/jamf/regatta/regattapb"
+
+// ---------------------------------------------------------------- record limits (C16, C09 pairBound)
+
+// limits every path that can create or address a record must respect
+//@ pure func okPutOp(p *regattapb.RequestOp_Put) bool = p != nil && len(p.Key) > 0 && len(p.Key) <= 1024 && len(p.Value) <= 2097152
+//@ pure func okDelOp(d *regattapb.RequestOp_DeleteRange) bool = d != nil && len(d.Key) > 0 && len(d.Key) <= 1024
+//@ pure func okRangeOp(r *regattapb.RequestOp_Range) bool = r != nil && len(r.Key) <= 1024 && len(r.RangeEnd) <= 1024
+//@ pure func okOp(o *regattapb.RequestOp) bool = o != nil && (typeIs(o.Request, *regattapb.RequestOp_RequestPut) ==> asType(o.Request, *regattapb.RequestOp_RequestPut) != nil && okPutOp(asType(o.Request, *regattapb.RequestOp_RequestPut).RequestPut)) && (typeIs(o.Request, *regattapb.RequestOp_RequestDeleteRange) ==> asType(o.Request, *regattapb.RequestOp_RequestDeleteRange) != nil && okDelOp(asType(o.Request, *regattapb.RequestOp_RequestDeleteRange).RequestDeleteRange)) && (typeIs(o.Request, *regattapb.RequestOp_RequestRange) ==> asType(o.Request, *regattapb.RequestOp_RequestRange) != nil && okRangeOp(asType(o.Request, *regattapb.RequestOp_RequestRange).RequestRange))
+//@ pure func okOps(ops []*regattapb.RequestOp) bool = forall j int :: 0 <= j && j < len(ops) ==> okOp(ops[j])
+// a command respects the limits: PUT/DELETE key and value sizes, TXN: every nested operation
+//@ pure func cmdValid(c *regattapb.Command) bool = c != nil && (c.Type == 0 ==> c.Kv != nil && len(c.Kv.Key) > 0 && len(c.Kv.Key) <= 1024 && len(c.Kv.Value) <= 2097152) && (c.Type == 1 ==> c.Kv != nil && len(c.Kv.Key) > 0 && len(c.Kv.Key) <= 1024) && (c.Type == 5 ==> c.Txn != nil && okOps(c.Txn.Success) && okOps(c.Txn.Failure))
+
+// the bytes of a marshalled command remember whether the command respected the limits
+//@ uninterp func validCmdBytes(b []byte) bool
+//@ func regattapb.(*Command).MarshalVT
+//@   assumed
+//@   params m
+//@   results dAtA, err
+//@   requires m != nil
+//@   ensures err == nil ==> validCmdBytes(dAtA) == cmdValid(m)
+//@   modifies nothing
+
+// the Raft node host behind a table: ghost counters of proposals and reads; only commands that
+// respect the limits may be proposed ([C16.limits]); dragonboat returns the Result the state
+// machine produced for the proposer's entry.
+//@ ghostfield any.nprop Int
+//@ ghostfield any.nsync Int
+//@ ghostfield any.nstale Int
+//@ iface table.raftHandler.SyncPropose
+//@   assumed
+//@   params nh, ctx, session, bytes
+//@   results res, err
+//@   requires [C16.limits] validCmdBytes(bytes)
+//@   ensures nh.nprop == old(nh.nprop) + 1
+//@   modifies nh.nprop
+//@ iface table.raftHandler.SyncRead
+//@   assumed
+//@   params nh, ctx, id, req
+//@   results val, err
+//@   ensures nh.nsync == old(nh.nsync) + 1 && nh.nstale == old(nh.nstale)
+//@   modifies nh.nsync
+//@ iface table.raftHandler.StaleRead
+//@   assumed
+//@   params nh, id, req
+//@   results val, err
+//@   ensures nh.nstale == old(nh.nstale) + 1 && nh.nsync == old(nh.nsync)
+//@   modifies nh.nstale
+
+// ActiveTable.Put: empty / oversized key and oversized value are refused before anything is proposed;
+// otherwise exactly one proposal.
+//@ func (*ActiveTable).Put
+//@   results resp, err
+//@   maypanic
+//@   requires t != nil && t.nh != nil && req != nil
+//@   ensures [C16.put.empty] len(req.Key) == 0 ==> err == serrors.ErrEmptyKey && t.nh.nprop == old(t.nh.nprop)
+//@   ensures [C16.put.klen]  len(req.Key) > 1024 ==> err == serrors.ErrKeyLengthExceeded && t.nh.nprop == old(t.nh.nprop)
+//@   ensures [C16.put.vlen]  len(req.Key) > 0 && len(req.Key) <= 1024 && len(req.Value) > 2097152 ==> err == serrors.ErrValueLengthExceeded && t.nh.nprop == old(t.nh.nprop)
+//@   ensures [C16.put.once]  t.nh.nprop <= old(t.nh.nprop) + 1
+//@   modifies t.nh.nprop
+
+//@ func (*ActiveTable).Delete
+//@   results resp, err
+//@   maypanic
+//@   requires t != nil && t.nh != nil && req != nil
+//@   ensures [C16.del.empty] len(req.Key) == 0 ==> err == serrors.ErrEmptyKey && t.nh.nprop == old(t.nh.nprop)
+//@   ensures [C16.del.klen]  len(req.Key) > 1024 ==> err == serrors.ErrKeyLengthExceeded && t.nh.nprop == old(t.nh.nprop)
+//@   ensures [C16.del.once]  t.nh.nprop <= old(t.nh.nprop) + 1
+//@   modifies t.nh.nprop
+
+// ActiveTable.Txn: a read-only transaction takes the consensus read path and proposes nothing; any
+// other transaction is proposed exactly once, and only if every nested operation respects the limits.
+//@ func (*ActiveTable).Txn
+//@   results resp, err
+//@   maypanic
+//@   requires t != nil && t.nh != nil && req != nil && (forall j int :: 0 <= j && j < len(req.Success) ==> req.Success[j] != nil) && (forall j int :: 0 <= j && j < len(req.Failure) ==> req.Failure[j] != nil)
+//@   ensures [C10.txn.ro]    old(roAllRange(req)) ==> t.nh.nprop == old(t.nh.nprop) && t.nh.nstale == old(t.nh.nstale)
+//@   ensures [C16.txn.once]  t.nh.nprop <= old(t.nh.nprop) + 1
+//@   ensures [C16.txn.limits] !(okOps(req.Success) && okOps(req.Failure)) ==> err != nil && t.nh.nprop == old(t.nh.nprop)
+//@   modifies t.nh.nprop, t.nh.nsync, t.nh.nstale
+//@ pure func roAllRange(req *regattapb.TxnRequest) bool = (forall j int :: 0 <= j && j < len(req.Success) ==> typeIs(req.Success[j].Request, *regattapb.RequestOp_RequestRange)) && (forall j int :: 0 <= j && j < len(req.Failure) ==> typeIs(req.Failure[j].Request, *regattapb.RequestOp_RequestRange))
